@@ -21,6 +21,10 @@ import (
 	"reflect"
 )
 
+// callableMaxTypes is the largest number of types accepted by reflect.FuncOf (parameters plus results), which is
+// used to build the args and results functions passed to Callable.Call
+const callableMaxTypes = 128
+
 type (
 	// Callable models a function, and is used by this package to provide a higher-level mechanism (than the reflect
 	// package) for calling arbitrary functions, in a generic way, see also the NewCallable factory function
@@ -96,6 +100,9 @@ func CallArgs(args ...interface{}) CallOption {
 		if err != nil {
 			return fmt.Errorf(`bigbuff.CallArgs %s`, err)
 		}
+		if len(in) > callableMaxTypes {
+			return fmt.Errorf(`bigbuff.CallArgs args error: too many args: max=%d len=%d`, callableMaxTypes, len(in))
+		}
 		config.args = reflect.MakeFunc(
 			reflect.FuncOf(nil, in, false),
 			func([]reflect.Value) (results []reflect.Value) {
@@ -119,6 +126,9 @@ func CallResults(results ...interface{}) CallOption {
 		out := typesInOut(config.this.NumOut(), config.this.Out)
 		if len(results) != len(out) {
 			return fmt.Errorf(`bigbuff.CallResults results error: invalid length: mandatory=%d len=%d`, len(out), len(results))
+		}
+		if len(out) > callableMaxTypes {
+			return fmt.Errorf(`bigbuff.CallResults results error: too many results: max=%d len=%d`, callableMaxTypes, len(out))
 		}
 		for i, out := range out {
 			v := reflect.ValueOf(results[i])
@@ -164,6 +174,9 @@ func CallResultsSlice(target interface{}) CallOption {
 			return fmt.Errorf(`bigbuff.CallResultsSlice target error: not slice: %T`, target)
 		}
 		out := typesInOut(config.this.NumOut(), config.this.Out)
+		if len(out) > callableMaxTypes {
+			return fmt.Errorf(`bigbuff.CallResultsSlice results error: too many results: max=%d len=%d`, callableMaxTypes, len(out))
+		}
 		{
 			elem := value.Elem().Type().Elem()
 			for i, v := range out {
